@@ -60,7 +60,7 @@ func runEphSchedule(buf *bufEmitter, be *ephBackend, run int, ops []ephOp) {
 	buf.Emit(map[string]any{"ev": "EphRun", "backend": be.name, "run": run})
 	regs := map[int]*registrant{1: {}, 2: {}, 3: {}}
 	leaseOwner := map[int64]int{}
-	for _, op := range ops {
+	for i, op := range ops {
 		ev := map[string]any{"ev": "EphOp", "op": op.Op, "r": op.R, "ok": true}
 		switch op.Op {
 		case "reg":
@@ -95,6 +95,12 @@ func runEphSchedule(buf *bufEmitter, be *ephBackend, run int, ops []ephOp) {
 			r.active = false
 		}
 		buf.Emit(ev)
+		// every other schedule: a registration that follows a lapse comes at once, before the old
+		// registrant's next heartbeat tick (the take-over race); the state is then looked at after that step
+		if op.Op == "lapse" && run%2 == 1 && i+1 < len(ops) && ops[i+1].Op == "reg" {
+			time.Sleep(30 * time.Millisecond)
+			continue
+		}
 		time.Sleep(be.settle)
 		bel := []int{}
 		for i := 1; i <= 3; i++ {
